@@ -179,6 +179,18 @@ def run_case(c):
                 except UnicodeEncodeError:
                     pass
         starts = list(rules)[:2]
+        if model.binary:
+            # the same inputs handed over as text and as bytes on one object (the reference - a fresh object - defines what
+            # either kind of request yields, including which exception)
+            for inp in list(pool[:3]):
+                if isinstance(inp, bytes):
+                    pool.append(inp.decode("latin-1"))
+        elif rng.random() < 0.3:
+            for inp in list(pool[:2]):
+                try:
+                    pool.append(inp.encode("latin-1"))
+                except UnicodeEncodeError:
+                    pass
     if not pool:
         return {"status": "ok", "stats": {"no_inputs": 1}, "nontrivial": False}
     conv = "bytes" if (model is not None and model.binary) else "str"
